@@ -617,8 +617,9 @@ class Bench:
                 return "group-reset-ignores-subregister-reset-values"
             if r.alt_widths and kind in self.WHOLE_WRITES and self.wrote_whole(op, r):
                 first_upper = min(r.alt_widths) // r.sub_width
-                # the model has zeroed the sub-registers above the written width class, the tree kept what they held
-                if all(d["sub"] >= first_upper and d["model"] == (r.subs[d["sub"]].reset if kind in self.RESET_OPS else 0) for d in subs):
+                # the register was written as a whole in this operation and only sub-registers above the smallest width class
+                # disagree: the model has determined them, the tree kept (part of) what they held
+                if all(d["sub"] >= first_upper for d in subs):
                     return "altwidth-narrow-write-keeps-upper-subregisters"
         if kind in self.RESET_OPS and any(shift_reset_field(lf) for lf in leaves):
             return "reset-value-ignores-config-processor-of-bitfield"
